@@ -32,6 +32,18 @@ type InputSpec struct {
 	Map  string `json:"map"`  // whole: the entire output ; to: ToField(<from name>) ; (ignored for dep)
 }
 
+// SubSpec is the graph of a nested graph node (kind "sub"): a small Graph[M, M] in dag or pregel
+// mode whose nodes are lambdas (no further nesting). Inner node j of outer node i has the id
+// subBase*(i+1)+j and the key "n<i>s<j>".
+type SubSpec struct {
+	Mode          string       `json:"mode"`
+	Nodes         []NodeSpec   `json:"nodes"`
+	StartSucc     []int        `json:"start_succ"`
+	StartBranches []BranchSpec `json:"start_branches,omitempty"`
+}
+
+const subBase = 1000
+
 // NodeSpec is one node.
 //
 //	prod  StreamableLambda: the framework concatenates the input; the node starts a goroutine that sends Items chunks into a Pipe(Cap)
@@ -40,6 +52,8 @@ type InputSpec struct {
 //	ident TransformableLambda returning its input
 //	inv   InvokableLambda (concatenated input, one-chunk array output)
 //	coll  CollectableLambda: reads Prefix chunks of its input, closes it, returns one value
+//	sub   a nested Graph[M, M] (Sub), compiled in its own trigger mode
+//	tools StreamableLambda around compose.ToolsNode.Stream with Tools streaming tool calls (each tool a producer goroutine)
 type NodeSpec struct {
 	Kind     string       `json:"kind"`
 	Cap      int          `json:"cap,omitempty"`
@@ -52,12 +66,21 @@ type NodeSpec struct {
 	Branches []BranchSpec `json:"branches,omitempty"`
 	Inputs   []InputSpec  `json:"inputs,omitempty"` // workflow only (then Succ is unused)
 	Fail     bool         `json:"fail,omitempty"`   // the node returns an error instead of running (abort exits; outside the property)
+	Sub      *SubSpec     `json:"sub,omitempty"`    // kind "sub": AddGraphNode of this graph
+	Tools    int          `json:"tools,omitempty"`  // kind "tools": number of streaming tool calls of the ToolsNode
+	Pre      string       `json:"pre,omitempty"`    // state pre handler (Case.State only): value | stream | wrap
+	Post     string       `json:"post,omitempty"`   // state post handler: value | stream | wrap
 }
 
 // Case is one streaming run.
 type Case struct {
 	Mode          string       `json:"mode"`                 // dag (AllPredecessor) | pregel (AnyPredecessor) | workflow (Workflow: all-predecessor, eager)
 	EndInputs     []InputSpec  `json:"end_inputs,omitempty"` // workflow only
+	MaxSteps      int          `json:"max_steps,omitempty"`  // pregel: WithMaxRunSteps (step-limit exit), 0 = 300
+	Free          bool         `json:"free,omitempty"`       // pregel: free-form graph (genPregelFree)
+	State         bool         `json:"state,omitempty"`      // WithGenLocalState; nodes may carry state pre / post handlers
+	IntBefore     []int        `json:"int_before,omitempty"` // WithInterruptBeforeNodes + checkpoint store: the run is resumed until it completes
+	IntAfter      []int        `json:"int_after,omitempty"`  // WithInterruptAfterNodes
 	Nodes         []NodeSpec   `json:"nodes"`
 	StartSucc     []int        `json:"start_succ"`
 	StartBranches []BranchSpec `json:"start_branches,omitempty"`
@@ -77,7 +100,18 @@ func nodeName(i int) string {
 	case END:
 		return "end"
 	}
+	if i >= subBase {
+		return fmt.Sprintf("n%ds%d", i/subBase-1, i%subBase)
+	}
 	return fmt.Sprintf("n%d", i)
+}
+
+// spec returns the NodeSpec of an outer or inner node id.
+func (c *Case) spec(id int) *NodeSpec {
+	if id >= subBase {
+		return &c.Nodes[id/subBase-1].Sub.Nodes[id%subBase]
+	}
+	return &c.Nodes[id]
 }
 
 // Coq key of a node reference: START 0, END 1, node i -> i+2.
@@ -196,8 +230,11 @@ func uniqInts(xs []int) []int {
 }
 
 func (g *genCtx) nodeKind(n *NodeSpec) {
-	kinds := []string{"prod", "prod", "prod", "xform", "xform", "conv", "ident", "inv", "coll"}
+	kinds := []string{"prod", "prod", "prod", "xform", "xform", "conv", "ident", "inv", "coll", "tools"}
 	n.Kind = kinds[g.r.Intn(len(kinds))]
+	if n.Kind == "tools" {
+		n.Tools = g.r.Range(1, 3)
+	}
 	n.Cap = g.r.Intn(3)
 	switch g.r.Intn(4) {
 	case 0:
@@ -226,13 +263,55 @@ func genCase(r *lib.Rng, tier string) *Case {
 		g.genDag(c, r.Range(1, maxN))
 	case x < 7:
 		c.Mode = "pregel"
-		g.genPregel(c, maxN)
+		if r.Chance(1, 3) {
+			g.genPregelFree(c, r.Range(1, maxN))
+		} else {
+			g.genPregel(c, maxN)
+		}
 	default:
 		c.Mode = "workflow"
 		g.genWorkflow(c, r.Range(1, maxN))
 	}
+	g.subs(c)
 	if c.Mode != "workflow" {
 		g.keys(c)
+	}
+	// state handlers: value handlers concatenate the stream, stream handlers pass it on (as it is or wrapped)
+	if r.Chance(1, 6) {
+		c.State = true
+		hk := []string{"value", "stream", "wrap"}
+		for i := range c.Nodes {
+			n := &c.Nodes[i]
+			if n.Kind == "sub" || n.InKey != "" || n.OutKey != "" {
+				continue
+			}
+			if r.Chance(1, 3) {
+				n.Pre = hk[r.Intn(3)]
+			}
+			if r.Chance(1, 3) {
+				n.Post = hk[r.Intn(3)]
+			}
+		}
+	}
+	// abort exits (outside the property; what they leave behind goes to the distribution)
+	if len(c.Nodes) > 0 && r.Chance(1, 14) {
+		c.Nodes[r.Intn(len(c.Nodes))].Fail = true
+	}
+	if c.Mode == "pregel" && r.Chance(1, 14) {
+		c.MaxSteps = r.Range(1, 3)
+	}
+	// interrupt + resume: the streams held by channels and pending tasks go through the checkpoint
+	// (not on free-form Pregel graphs, whose "END alone" test needs the schedule of the last run)
+	if len(c.Nodes) > 0 && !c.Free && r.Chance(1, 8) {
+		for n := r.Range(1, 2); n > 0; n-- {
+			x := r.Intn(len(c.Nodes))
+			if r.Chance(1, 2) {
+				c.IntBefore = append(c.IntBefore, x)
+			} else {
+				c.IntAfter = append(c.IntAfter, x)
+			}
+		}
+		c.IntBefore, c.IntAfter = uniqInts(c.IntBefore), uniqInts(c.IntAfter)
 	}
 	if r.Chance(1, 2) {
 		c.Input = "stream"
@@ -388,6 +467,7 @@ func (g *genCtx) genPregel(c *Case, maxN int) {
 func (g *genCtx) keys(c *Case) {
 	r := g.r
 	keyable := func(k string) bool { return k == "prod" || k == "inv" || k == "coll" }
+	_ = keyable
 	for i := range c.Nodes {
 		if keyable(c.Nodes[i].Kind) && r.Chance(1, 4) {
 			c.Nodes[i].OutKey = []string{"ka", "kb"}[r.Intn(2)]
@@ -633,4 +713,68 @@ func (c *Case) callsOf() (writeTo, controls map[int][]int) {
 	}
 	addIn(END, c.EndInputs)
 	return
+}
+
+// subs turns some nodes into nested graphs (1-3 inner nodes, own trigger mode).
+func (g *genCtx) subs(c *Case) {
+	r := g.r
+	for i := range c.Nodes {
+		if !r.Chance(1, 10) {
+			continue
+		}
+		inner := &Case{}
+		if r.Chance(1, 2) {
+			inner.Mode = "dag"
+			g.genDag(inner, r.Range(1, 3))
+		} else {
+			inner.Mode = "pregel"
+			g.genPregel(inner, 3)
+		}
+		c.Nodes[i].Kind = "sub"
+		c.Nodes[i].Sub = &SubSpec{Mode: inner.Mode, Nodes: inner.Nodes, StartSucc: inner.StartSucc, StartBranches: inner.StartBranches}
+	}
+}
+
+// genPregelFree: an arbitrary directed graph in any-predecessor mode (edges and branches in every
+// direction, cycles included, step limit 40). Whether END is reached with no other node scheduled
+// is decided after the run (see unfinished): the other runs are outside the property.
+func (g *genCtx) genPregelFree(c *Case, k int) {
+	r := g.r
+	c.Nodes = make([]NodeSpec, k)
+	c.MaxSteps = 40
+	c.Free = true
+	any := func() int { // a node or END
+		t := r.Range(0, k)
+		if t == k {
+			return END
+		}
+		return t
+	}
+	succ := map[int][]int{}
+	succ[START] = []int{r.Intn(k)}
+	if r.Chance(1, 3) {
+		succ[START] = append(succ[START], any())
+	}
+	for j := 0; j < k; j++ {
+		for n := r.Range(1, 2); n > 0; n-- {
+			if r.Chance(1, 3) {
+				succ[j] = append(succ[j], END)
+			} else {
+				succ[j] = append(succ[j], any())
+			}
+		}
+	}
+	all := []int{END}
+	for j := 0; j < k; j++ {
+		all = append(all, j)
+	}
+	for j := -1; j < k; j++ {
+		edges, brs := g.carve(succ[j], all)
+		if j == START {
+			c.StartSucc, c.StartBranches = edges, brs
+		} else {
+			g.nodeKind(&c.Nodes[j])
+			c.Nodes[j].Succ, c.Nodes[j].Branches = edges, brs
+		}
+	}
 }
